@@ -35,7 +35,8 @@ def derive(cfg, seed):
             "extra": (h // 288) % 34, "U": 1 + (h // 9792) % 3, "tone": (h // 29376) % 3 != 0,
             "ascending": bool((h // 88128) % 2), "seed": 7 + h % 9973,
             "aligned": (h // 176256) % 5 == 0,      # DIRECTIO header that is already a multiple of 512 bytes (cards % 32 == 0)
-            "big": (h // 881280) % 12 == 0}        # more than 10000 time samples per block
+            "big": (h // 881280) % 12 == 0,        # more than 10000 time samples per block
+            "ragged": (h // 10575360) % 3 == 0}    # windows per block not a multiple of num_subblocks: the last sub-block is shorter
 
 
 def write_input(cfg, inst, workdir):
@@ -43,7 +44,17 @@ def write_input(cfg, inst, workdir):
         inst["U"] = 5200 // cfg["nsub"] + 1
     if inst["aligned"]:
         inst["dio"] = "one"
-    T = TAPS * cfg["nsub"] * inst["U"]
+    # windows per block W and windows per regular sub-block w (Backend.tla: w = ceil(W / num_subblocks), the count of
+    # sub-blocks is ceil(W / w)); ragged: W = w (nsub - 1) + (w - 1) with w >= nsub keeps the count at nsub
+    if inst.get("ragged") and cfg["nsub"] > 1 and not inst["big"]:
+        w = max(inst["U"] + 1, cfg["nsub"])
+        W = w * (cfg["nsub"] - 1) + (w - 1)
+    else:
+        inst["ragged"] = False
+        w = inst["U"]
+        W = cfg["nsub"] * w
+    inst["sub_rows"] = TAPS * w
+    T = TAPS * W
     bps = 2 * inst["pols"] * inst["bits"] // 8
     obsnchan = inst["nch"] * inst["nant"]
     blocsize = obsnchan * T * bps
@@ -247,7 +258,7 @@ def run_config(exp, seed, workdir):
                                 raise Div("C14", "synthetic.target_mean", 0, c1["tm"])
                             if ci == 0 and (not rc["digitize"] or not inst["tone"]):
                                 rows_ = c1["x"].shape[0]
-                                n0 = (k // 2) * rows_
+                                n0 = ((k // 2) // cfg["nsub"]) * T + ((k // 2) % cfg["nsub"]) * inst["sub_rows"]
                                 if rc["digitize"]:
                                     want_syn = np.zeros((rows_, inst["nch"]))
                                 else:
@@ -266,7 +277,9 @@ def run_config(exp, seed, workdir):
                             if abs(c2["tm"] - part.mean()) > 1e-9 or abs(c2["ts"] - part.std()) > 1e-9:
                                 raise Div("C14", "target_stats", [float(part.mean()), float(part.std())], [c2["tm"], c2["ts"]])
                             rows = c1["y"].shape[0]
-                            t0 = sb * (T // cfg["nsub"])
+                            t0 = sb * inst["sub_rows"]
+                            if rows != min(inst["sub_rows"], T - t0):
+                                raise Div("C14|C02", "subblock_rows", min(inst["sub_rows"], T - t0), rows)
                             want_x2 = c1["y"] + part[:, t0:t0 + rows].T
                             if c2["x"].shape != want_x2.shape or not np.array_equal(c2["x"], want_x2):
                                 raise Div("C14", "sum_input_plus_synthetic", "input block slice + scaled synthetic", "mismatch at sub-block %d" % sb)
